@@ -245,6 +245,10 @@ class Sim:
                 target = v.tooled.get(op["fn"]) or self.lookup(v, op["fn"])
                 args = [env._fresh() for _ in range(op.get("nargs", 0))]
                 v.gens[g] = target(*args)
+                if op.get("as_global"):
+                    # the generator object is also a module global of the actors' module: another
+                    # actor (pump) advances it from inside its own call
+                    setattr(v.mod, op["as_global"], v.gens[g])
                 if op.get("cycle"):
                     # a reference cycle through the generator: dropping it later
                     # leaves finalisation to the collector (S3)
